@@ -110,6 +110,7 @@ func (s *session[H]) getRangeByHeight(
 	}
 
 	headers := make([]H, 0, amount)
+	chunks := make([][]H, 0, len(requests))
 LOOP:
 	for {
 		select {
@@ -122,6 +123,7 @@ LOOP:
 			return nil, ctx.Err()
 		case res := <-result:
 			headers = append(headers, res...)
+			chunks = append(chunks, res)
 			if uint64(len(headers)) >= amount {
 				break LOOP
 			}
@@ -131,6 +133,13 @@ LOOP:
 	sort.Slice(headers, func(i, j int) bool {
 		return headers[i].Height() < headers[j].Height()
 	})
+
+	// every chunk was verified against `from` only: make sure the chunks, which may come from
+	// different peers, also continue each other
+	if err = s.verifyChunkBoundaries(chunks); err != nil {
+		span.SetStatus(codes.Error, err.Error())
+		return nil, err
+	}
 
 	log.Debugw("received headers range",
 		"from", headers[0].Height(),
@@ -298,6 +307,26 @@ func (s *session[H]) verify(headers []H) ([]H, error) {
 	}
 
 	return header.VerifyRange(s.from, headers)
+}
+
+// verifyChunkBoundaries checks that the first header of every received chunk verifies against
+// the last header of the chunk preceding it in the range.
+func (s *session[H]) verifyChunkBoundaries(chunks [][]H) error {
+	if s.from.IsZero() {
+		return nil
+	}
+
+	sort.Slice(chunks, func(i, j int) bool {
+		return chunks[i][0].Height() < chunks[j][0].Height()
+	})
+	for i := 1; i < len(chunks); i++ {
+		prev := chunks[i-1]
+		if err := header.Verify(prev[len(prev)-1], chunks[i][0]); err != nil {
+			return fmt.Errorf("header/p2p: received range is not a chain at %d: %w",
+				chunks[i][0].Height(), err)
+		}
+	}
+	return nil
 }
 
 // prepareRequests converts incoming range into separate HeaderRequest.
